@@ -1,30 +1,41 @@
-"""C02 - readers decode every spec-conformant file, however it was encoded (DESIGN.md section 5, C02)."""
+"""C02 - readers decode every spec-conformant file, however it was encoded (DESIGN.md section 5, C02).
+
+Files: gen.py (plans, case protocol, minimisation), special.py (corner-case families), model.py (abstract data sets and
+their canonical text), enc_pbf.py / enc_o5m.py / enc_xml.py / enc_opl.py (independent, specification-derived encoders),
+h02.cpp (reads every case with the real osmium::io::Reader and the format parser, compares, reports)."""
 import os
 import sys
+import time
 
 LEVEL = "exploration"
 RULE = ("exhaustive products of finite menus of free encoding choices x small abstract data sets, no random generation. An independent, "
-        "specification-derived Python generator (checks/C02/gen.py + enc_*.py) enumerates per format a deterministic plan: the full product of "
-        "the choice menus where it is small (o5m: all 432 combinations x 13 data sets; OPL: all 4608 x 3|10 data sets; PBF thorough: all 165888 "
-        "block-level combinations x 2 data sets, 2304..13824 x 6 more, framing products, every BlobHeader size 1..65535), otherwise every single "
-        "deviation from the default encoding plus a greedy strength-3 (XML thorough: 4) covering array of all choice values per data set plus full "
-        "products of a core subset; special families: every o5m file tail of 1..12|40 bytes after the last data set's type byte x 4 prefixes x 4 "
-        "data set kinds, string-table references at 1/2/mid/oldest of 1..45005 stored strings (wrap-around), strings of 246..256|200..300 "
-        "characters around the 250-character table limit, all 8! (thorough: also 9!) attribute/field orders of a node in XML and OPL, the smallest "
-        "valid files of each format, and 7 data sets x 3 encoding profiles read through all four readers. Each generated file comes with the "
-        "canonical text of the header and objects it denotes; the harness reads it with the real osmium::io::Reader by file name and from a "
-        "memory buffer and compares byte for byte. evaluations = files read (each twice); distinct_nontrivial = files with at least one "
-        "non-default encoding choice that denote >= 1 object and were decoded exactly (distinct by construction: the plan is de-duplicated by "
-        "case spec). Tri-state cases (legal by the letter of protobuf/XML/o5m but outside what the format descriptions promise or the library "
-        "documents) are counted by outcome under tri/..., never alarmed.")
+        "specification-derived Python generator (gen.py, special.py, enc_*.py) enumerates a deterministic plan per format; every case is a "
+        "file plus the canonical text of the header and objects it denotes; the harness reads it with the real osmium::io::Reader by file "
+        "name and drives the format's parser directly on the same bytes in memory, and compares both dumps with the expectation byte for "
+        "byte. Plan per format: the full product of the choice menus where it is small (o5m: all 432 combinations of 6 choices x 15 data "
+        "sets; OPL: all 4608 combinations of 8 choices x 3 data sets in quick | 11 in thorough; PBF thorough: all 331776 combinations of the "
+        "12 block-level choices on the main data set, 82944 on the history data set, 13824 on 7 more, 5760 framing combinations x 2, every "
+        "BlobHeader size 1..65535), otherwise every single deviation from the default encoding plus a greedy strength-3 (XML thorough: 4; "
+        "self-checked) covering array of all choice values per data set plus full products of a core subset (PBF quick: 2304 x 2; XML: 750 x "
+        "2|11, thorough also 7680 x 3). Special families: every o5m file tail of 1..12 | 1..40 bytes after the type byte of the last data "
+        "set x 4 prefixes x 4 kinds of last data set x end marker; o5m string-table references 1 / 2 / mid / oldest-1 / oldest after 1..45005 "
+        "stored strings (tag pairs, user pairs, roles; before and after wrap-around of the 15000 entries); strings of 246..256 | 200..300 "
+        "characters around the 250-character table limit; all 7! (thorough: also 8! and 9!) attribute/field orders of a node in XML and "
+        "OPL; PBF blobs whose content ends 1..13 bytes (quick: 1, 5, 6, 11), 4 KiB and 16 MiB below the 32 MiB limit (raw, raw+size, zlib, lz4); the smallest valid files of each format; 8 data "
+        "sets x 3 encoding profiles read through all four readers (reader against reader). evaluations = files read (each twice); "
+        "distinct_nontrivial = files with at least one non-default encoding choice that denote >= 1 object and were decoded exactly "
+        "(distinct by construction: rows of one source are de-duplicated by case spec, a row inside a full product is left to it). Failing "
+        "cases are minimised (choices reset to default, objects dropped, numeric choices widened to the contiguous failing interval / "
+        "class) and reported under the minimal set of non-default choices. Tri-state cases (legal by the letter of protobuf / XML / o5m but "
+        "outside what the format descriptions promise or the library documents) are counted by outcome under tri/..., never alarmed.")
 DEADLINE = {"quick": 200, "thorough": 1100}
 # part, shards, weight of the part in the time budget (quick, thorough); time a part does not use goes to the following ones
 PARTS = [("tiny", 1, (1, 1)), ("agree", 2, (1, 1)), ("o5m", 16, (6, 3)), ("xml", 16, (6, 12)), ("opl", 16, (6, 10)), ("pbf", 16, (6, 40))]
 
 
 def build(ctx):
-    flags = ['-DC02_DIR="%s"' % ctx.checkdir, '-DC02_DATA="%s"' % os.path.join(os.path.dirname(os.path.dirname(ctx.checkdir)), "build", "C02-data"),
-             '-DC02_PYTHON="%s"' % sys.executable]
+    data = os.path.join(os.path.dirname(os.path.dirname(ctx.checkdir)), "build", "C02-data")
+    flags = ['-DC02_DIR="%s"' % ctx.checkdir, '-DC02_DATA="%s"' % data, '-DC02_PYTHON="%s"' % sys.executable]
     return {"h02": ctx.build("h02", ["h02.cpp"], flags=flags, opt="-O2")}
 
 
@@ -33,7 +44,6 @@ def run(ctx):
     if getattr(ctx, "build_only", False):
         return
     env = {"PYTHONDONTWRITEBYTECODE": "1", "OSMIUM_POOL_THREADS": "2", "C02_PYTHON": sys.executable}
-    import time
     wi = 0 if ctx.tier == "quick" else 1
     for n, (part, shards, w) in enumerate(PARTS):
         rest = sum(p[2][wi] for p in PARTS[n:])
@@ -42,10 +52,16 @@ def run(ctx):
         # (the harness takes the last --deadline it is given)
         ctx.run_harness(exe, ["--part", part, "--deadline", str(budget)], shards=shards, env=env)
         ctx.notes.append("part %s: %.1fs of a budget of %ds" % (part, time.time() - t, budget))
-    ctx.assume("the Python encoders implement the published format descriptions (PBF: protobuf encoding guide + fileformat.proto/osmformat.proto; "
-               "o5m: wiki O5m; OSM XML / OsmChange wiki + XML 1.0; OPL manual); coordinates in PBF files are chosen exactly representable in the "
-               "block's granularity/offset, so no rounding rule is involved")
-    ctx.assume("tri-state (counted, not alarmed): changeset id 2^32-1 (rejected by the text parsers as pinned by the repo's tests); OPL node "
-               "locations outside +-180/+-90 (documented: only valid locations are kept); packed protobuf fields split into several records; "
-               "XML in encodings other than UTF-8; interleaved <nd>/<tag> children; an o5m single string of exactly 251 characters; o5m files "
-               "that rely on way-node and relation-node-member references sharing or not sharing a delta counter")
+    ctx.assume("the Python encoders implement the published format descriptions (PBF: protobuf encoding guide + fileformat.proto / "
+               "osmformat.proto as on the OSM wiki; o5m: wiki O5m; OSM XML / OsmChange wiki + XML 1.0; OPL manual); coordinates in PBF files "
+               "are chosen exactly representable in the block's granularity/offset, so no rounding rule is involved")
+    ctx.assume("domain: ids in (INT64_MIN, INT64_MAX), version and uid < 2^31, timestamps and changesets < 2^32-1, locations undefined or "
+               "any int32 pair (OPL: valid range only), strings valid UTF-8 without NUL of <= 1024 bytes (XML: without the characters XML 1.0 "
+               "cannot carry), restricted per format to what it can carry (o5m: no author data without timestamp, deleted objects only in "
+               ".o5c; not encodable combinations are skipped and counted)")
+    ctx.assume("tri-state (counted, not alarmed): changeset id 2^32-1 in PBF/XML and id INT64_MAX in XML (rejected by the text/int parsers as "
+               "pinned by the repo's tests and C13); OPL node locations outside +-180/+-90 (documented: only valid locations are kept); packed "
+               "protobuf fields split into several records; XML in encodings other than UTF-8, with a DOCTYPE, or with interleaved <nd>/<tag> "
+               "children; an o5m single string of exactly 251 characters (250 + 2 bytes rule read with one terminator); o5m files that rely on "
+               "way-node and relation-node-member references sharing or not sharing a delta counter; raw PBF blobs whose content is below "
+               "32 MiB while the Blob message around it is not")
